@@ -62,6 +62,12 @@ pub const SHAPES: &[&str] = &[
     r#"permit(principal, action, resource) when { principal has home && principal.home has admin && principal.home.admin.friends.contains(User::"{U}") };"#,
     r#"forbid(principal, action in [Action::"view", Action::"edit"], resource) when { resource.owner has manager && resource.owner.manager has manager && resource.owner.manager.manager == principal };"#,
     r#"permit(principal, action, resource) when { context has via && context.via has manager && context.via.manager has home && context.via.manager.home.depth >= 0 };"#,
+    r#"permit(principal, action, resource) when { principal has manager && principal.manager has home };"#,
+    r#"forbid(principal, action, resource) when { User::"{U}" has manager };"#,
+    r#"permit(principal, action in [Action::"view", Action::"edit"], resource) when { resource.owner has manager };"#,
+    r#"forbid(principal, action in [Action::"view", Action::"edit"], resource) when { resource has parent && resource.parent has parent && resource.parent.parent has parent };"#,
+    r#"permit(principal, action, resource) when { context has via && context.via has home && context.via.home has admin };"#,
+    r#"permit(principal, action, resource) when { Doc::"{D}".hasTag("k") || Folder::"{F}" has admin };"#,
 ];
 
 /// shapes from this index on are deep attribute chains; the generator favours them
@@ -759,7 +765,7 @@ impl World for Batched {
         out
     }
     fn rule(&self) -> &'static str {
-        "cases = seeded scenarios (1-6 policies instantiated from 38 shapes and accepted by the real strict validator; stores of <=14 entities accepted by schema-based from_json; requests accepted by Request::new with schema; referenced-but-absent entities frequent) x a seeded delivery-fault plan for the simulated entity-store service x every budget 0..=n+1; evaluations = individual is_authorized_batched calls compared with Authorizer::is_authorized over the same store; non-trivial = scenario that needs >=2 loader rounds at full budget; distinct by hash of (policies, store, request, loader seed)"
+        "cases = seeded scenarios (1-6 policies instantiated from 44 shapes and accepted by the real strict validator; stores of <=14 entities accepted by schema-based from_json; requests accepted by Request::new with schema; referenced-but-absent entities frequent) x a seeded delivery-fault plan for the simulated entity-store service x every budget 0..=n+1; evaluations = individual is_authorized_batched calls compared with Authorizer::is_authorized over the same store; non-trivial = scenario that needs >=2 loader rounds at full budget; distinct by hash of (policies, store, request, loader seed)"
     }
     fn real_components(&self) -> Vec<&'static str> {
         vec!["PolicySet::is_authorized_batched (batched_evaluator loop, TPE evaluator, residuals, tpe::Response)", "Authorizer::is_authorized (reference)", "Validator (strict) / Entities::from_json_value(schema) / Request::new(schema) as precondition checks"]
